@@ -5,9 +5,11 @@ use std::mem::MaybeUninit;
 
 /// An on-stack stack of values.
 /// Used for tracking locations of parent components within a path.
+/// Values beyond CAPACITY spill to the heap.
 struct StackStack<T, const CAPACITY: usize> {
     n: usize,
     vals: [MaybeUninit<T>; CAPACITY],
+    spill: Vec<T>,
 }
 
 impl<T: Copy, const CAPACITY: usize> StackStack<T, CAPACITY> {
@@ -15,18 +17,23 @@ impl<T: Copy, const CAPACITY: usize> StackStack<T, CAPACITY> {
         StackStack {
             n: 0,
             vals: [MaybeUninit::uninit(); CAPACITY],
+            spill: Vec::new(),
         }
     }
 
     fn push(&mut self, val: T) {
         if self.n >= self.vals.len() {
-            panic!("too many path components");
+            self.spill.push(val);
+            return;
         }
         self.vals[self.n].write(val);
         self.n += 1;
     }
 
     fn pop(&mut self) -> Option<T> {
+        if let Some(val) = self.spill.pop() {
+            return Some(val);
+        }
         if self.n > 0 {
             self.n -= 1;
             // Safety: we only access vals[i] after setting it.
